@@ -177,10 +177,14 @@ def Lat.sendPing (l : Lat) (conn id : Nat) : Lat × List Delivery :=
   ({ l with open_ := if l.open_.contains id then l.open_ else l.open_ ++ [id], done := l.done.filter (· != id) },
    [(conn, .pingReq id)])
 
+/-- a measurement that is still running is given up for the new one: its request is answered too (CONFLICT) -/
+def Session.abandoned (s : Session) (p : Part) : List Delivery :=
+  if (s.latOf p.pid).started && (s.latOf p.pid).iter > 0 then [(p.conn, .error (s.latOf p.pid).rid ecConflict)] else []
+
 def Session.latencyStart (s : Session) (p : Part) (rid iter : Nat) (wallet : String) (hint : Nat) : Res :=
   let l : Lat := { started := true, rid, iter, open_ := [], done := [], uuid := s.uuid, wallet }
   let (l', ds) := l.sendPing p.conn hint
-  (s.setLat p.pid l', ds, .ok)
+  (s.setLat p.pid l', s.abandoned p ++ ds, .ok)
 
 def Session.onPing (s : Session) (p : Part) (rid hint : Nat) : Res :=
   let l := s.latOf p.pid
